@@ -391,21 +391,8 @@ theorem baseOK_put (P : Pool) (tx : Tx) (h : PInv P) (hb : BaseOK P) : BaseOK (P
   · simp only [hc, ↓reduceIte]; exact hb
   · have hc' : cacheHas tx.id P.cache = false := by simpa using hc
     simp only [hc', Bool.false_eq_true, ↓reduceIte]
-    obtain ⟨hP1, hl, _, _, _, hst, _, _, hne, hnone, hsome⟩ := pinv_acquire h tx.acc
-    have hb1 : BaseOK (P.acquire tx.acc).1 := by
-      intro a L hL
-      rw [hst]
-      by_cases ha : a = tx.acc
-      · subst ha
-        have := lookup_of_mem hP1.keys hL
-        rw [hl] at this
-        injection this with this
-        cases hq : lookup tx.acc P.lists with
-        | none => rw [← this, hnone hq]
-        | some M => rw [← this, (hsome M hq).1]; exact hb _ _ (lookup_mem hq)
-      · have := lookup_of_mem hP1.keys hL
-        rw [hne a ha] at this
-        exact hb a L (lookup_mem this)
+    obtain ⟨hP1, hl, _⟩ := pinv_acquire h tx.acc
+    have hb1 : BaseOK (P.acquire tx.acc).1 := baseOK_acquire h hb tx.acc
     have key : BaseOK (match ((P.acquire tx.acc).2.put tx).2 with
         | .error e => ((P.acquire tx.acc).1.release tx.acc, match e with | .low => PutRes.low | .same => PutRes.same)
         | .ok diff =>
@@ -455,6 +442,92 @@ theorem baseOK_evict (P : Pool) (old : List Nat) (hb : BaseOK P) : BaseOK (P.evi
       exact hQ b M (mem_delL hM).1
   · exact hQ
 
+/-- Removal keeps `BaseOK`. -/
+theorem baseOK_remove (P : Pool) (a id : Nat) (h : PInv P) (hb : BaseOK P) : BaseOK (P.removeTx a id).1 := by
+  unfold Pool.removeTx
+  by_cases hc : cacheHas id P.cache = true
+  · simp only [hc, Bool.not_true, Bool.false_eq_true, ↓reduceIte]
+    obtain ⟨hP1, hl, _⟩ := pinv_acquire h a
+    have hb1 := baseOK_acquire h hb a
+    intro b M hM
+    have hM' := mem_release hM
+    show M.base = (Pool.release _ a).state b
+    rw [(release_fields _ _).2.2.2.1]
+    rcases mem_setL hM' with ⟨rfl, rfl⟩ | hM''
+    · rw [(remove_spec (hP1.lists _ _ (lookup_mem hl)).1 id).2.1]
+      exact hb1 _ _ (lookup_mem hl)
+    · exact hb1 b M hM''
+  · have hc' : cacheHas id P.cache = false := by simpa using hc
+    simp only [hc', Bool.not_false, ↓reduceIte]
+    exact hb
+
+/-- The unconfirmed report keeps `BaseOK` (a list it creates is based on the visible state). -/
+theorem baseOK_unconfirmed (P : Pool) (a : Nat) (h : PInv P) (hb : BaseOK P) : BaseOK (P.unconfirmed a).1 :=
+  baseOK_acquire h hb a
+
+/-- Submissions never leave an empty list behind (accepted or refused). -/
+theorem noEmpty_put (P : Pool) (tx : Tx) (h : PInv P) (hn : NoEmpty P) : NoEmpty (P.put tx).1 := by
+  unfold Pool.put
+  by_cases hc : cacheHas tx.id P.cache = true
+  · simp only [hc, ↓reduceIte]; exact hn
+  · have hc' : cacheHas tx.id P.cache = false := by simpa using hc
+    simp only [hc', Bool.false_eq_true, ↓reduceIte]
+    obtain ⟨hP1, hl, hcache, _⟩ := pinv_acquire h tx.acc
+    have hfresh : cacheHas tx.id (P.acquire tx.acc).1.cache = false := by rw [hcache]; exact hc'
+    have key : NoEmpty (match ((P.acquire tx.acc).2.put tx).2 with
+        | .error e => ((P.acquire tx.acc).1.release tx.acc, match e with | .low => PutRes.low | .same => PutRes.same)
+        | .ok diff =>
+          (({ (P.acquire tx.acc).1 with
+              lists := setL tx.acc ((P.acquire tx.acc).2.put tx).1 (P.acquire tx.acc).1.lists,
+              orphan := (P.acquire tx.acc).1.orphan - diff,
+              cache := cacheStore tx (P.acquire tx.acc).1.cache,
+              length := (P.acquire tx.acc).1.length + 1 } : Pool).release tx.acc, PutRes.ok)).1 := by
+      cases hput : (P.acquire tx.acc).2.put tx with
+      | mk L' r =>
+        cases r with
+        | error e =>
+          simp only
+          exact noEmpty_release hP1 _ (fun b M hM hba => hn b M (mem_acquire hM hba))
+        | ok d =>
+          simp only
+          apply noEmpty_release (pinv_put_core hP1 hl hput hfresh)
+          intro b M hM hba
+          rcases mem_setL hM with ⟨h1, _⟩ | h2
+          · exact absurd h1 hba
+          · exact hn b M (mem_acquire h2 hba)
+    rcases validate_cases (P.state tx.acc) tx with ⟨hv, _⟩ | ⟨hv, _⟩ | ⟨hv, _⟩ | ⟨hv, _⟩
+    · simp only [hv]; exact hn
+    · simp only [hv]; exact hn
+    · simp only [hv]; exact key
+    · simp only [hv]; exact key
+
+/-- Block notifications never leave an empty list behind. -/
+theorem noEmpty_blockArrival (P : Pool) (new parent chain : Nat) (dirty : List Nat) (σ : Nat → Acct)
+    (h : PInv P) (hn : NoEmpty P) : NoEmpty (P.blockArrival new parent chain dirty σ) := by
+  unfold Pool.blockArrival
+  have hS : PInv (P.setStateDB new parent chain σ).1 ∧ NoEmpty (P.setStateDB new parent chain σ).1 := by
+    unfold Pool.setStateDB
+    split
+    · split <;> exact ⟨h.congr rfl rfl rfl rfl, hn⟩
+    · exact ⟨h, hn⟩
+  simp only
+  split
+  · intro b M hM; simp [Pool.resetAll] at hM
+  · refine (foldl_preserves (fun Q => PInv Q ∧ NoEmpty Q) _ ?_ _ _ hS).2
+    intro Q a hQ
+    split
+    · exact ⟨pinv_filterAcc hQ.1 a, noEmpty_filterAcc hQ.1 hQ.2 a⟩
+    · exact hQ
+
+/-- Eviction never leaves an empty list behind. -/
+theorem noEmpty_evict (P : Pool) (old : List Nat) (hn : NoEmpty P) : NoEmpty (P.evict old) := by
+  unfold Pool.evict
+  apply foldl_preserves NoEmpty _ _ _ _ hn
+  intro Q a hQ
+  split
+  · exact noEmpty_evictAcc hQ a
+  · exact hQ
+
 /-- Sample pool (a test of the definitions, also the non-vacuity witness for the `PInv` hypotheses):
 account 7 with ready nonce 1 and orphan nonce 3, account 9 with ready nonce 6 on base 5. -/
 def samplePool : Pool :=
@@ -473,6 +546,22 @@ example : BaseOK samplePool := by
   intro a L h
   simp only [samplePool, List.mem_cons, Prod.mk.injEq, List.not_mem_nil, or_false] at h
   rcases h with ⟨rfl, rfl⟩ | ⟨rfl, rfl⟩ <;> rfl
+
+/-- The guard of `pinv_remove` cannot be dropped — this is a genuine defect of the pinned code (finding
+`C13-removeTx-named-sender`): `removeTx` reads the account from the transaction handed in; for a transaction
+whose sender field is a *name* that is not the key its list is filed under (the verified address). Called with
+an account (100) other than the pooled transaction's list key (7), `removeTx` finds nothing in the (new, empty)
+list of 100 but still deletes the hash from the index and decrements `length`: the invariant breaks
+(reported total 2, held 3). -/
+example : ¬ PInv (samplePool.removeTx 100 21).1 := by
+  intro h
+  have := h.length
+  revert this
+  decide
+
+/-- … and the transaction is still offered to block producers although the index no longer knows it. -/
+example : (samplePool.removeTx 100 21).1.get.map (fun e => (e.1, e.2.map (·.id))) = [(7, [21]), (9, [23])] ∧
+    (samplePool.removeTx 100 21).1.exist 21 = none := by decide
 
 /-- Test on sample values: the fetch offers 7:[1] (3 is beyond a gap) and 9:[6]. -/
 example : samplePool.get.map (fun e => (e.1, e.2.map (·.nonce))) = [(7, [1]), (9, [6])] := by decide
